@@ -246,3 +246,36 @@ def obligations(ctx, cfg):
              TopicRequestTerminates(ctx, 'remove_subscription', lambda c, p: [sym_name(c, p, 'SubscriptionName', 'n')]),
              TopicRequestTerminates(ctx, 'delete', none)]
     return _obligations_c07(ctx, cfg) + [TopicActorLoop(ctx, v) for v in ('Delete', 'PublishMessages', 'AttachSubscription', 'RemoveSubscription')] + term
+
+
+def _pull_wait_limit(ctx):
+    """the unary Pull handler ends at its server-side wait limit however often it is woken for nothing: one timer per request"""
+    from props.C10 import Handler, req_pull
+
+    class PullWaitLimit(Handler):
+        def __init__(self, ctx_):
+            Handler.__init__(self, ctx_, 'subscriber', 'pull', req_pull)
+            self.id = 'C07.e-pull-wait-limit'
+            self.desc = ('Pull handler on a subscription that keeps answering with nothing: however often the consumer is woken, the request is bounded by ONE '
+                         'wait-limit timer started when the request began (a wake-up that finds nothing does not restart the clock), and it returns once that timer fires')
+            self.bounds = {'wake-ups that find nothing': '<= unroll', 'topics': 1, 'subscriptions': 1}
+
+        def post(self, ip, p, res):
+            out = Handler.post(self, ip, p, res)
+            log = res['log']
+            timers = [e for e in log if e[0] in ('sleep', 'sleep_until')]
+            pulls = [i for i, e in enumerate(log) if e[0] == 'enqueue']
+            out.append(Claim('at most one wait-limit timer per request', len(timers) <= 1))
+            if timers and len(pulls) >= 2:
+                ti = log.index(timers[0])
+                out.append(Claim('the wait-limit timer is started before the consumer first waits (not re-armed after a wake-up)', ti < pulls[1]))
+            out.append(Cover('woken for nothing at least once', len(pulls) >= 2))
+            return out
+    return PullWaitLimit(ctx)
+
+
+_obligations_c07b = obligations
+
+
+def obligations(ctx, cfg):
+    return _obligations_c07b(ctx, cfg) + [_pull_wait_limit(ctx)]
